@@ -47,6 +47,7 @@ func TestScenarios(t *testing.T) {
 	}
 	defer f.Close()
 	tr := NewTracer(f)
+	curTracer = tr
 	var beat atomic.Int64
 	var active atomic.Int64
 	active.Store(-1)
